@@ -414,6 +414,16 @@ func TestC11_SmallDomains(t *testing.T) {
 			run(refint.IntV(i), fn)
 		}
 	}
+	// every power of ten and its neighbours, both signs: digit counts and conversions at the boundaries
+	for k, p := 1, int64(10); k <= 18; k, p = k+1, p*10 {
+		for _, d := range []int64{-2, -1, 0, 1, 2} {
+			for _, sign := range []int64{1, -1} {
+				for _, fn := range []string{"len", "str", "abs", "float"} {
+					run(refint.IntV(sign*(p+d)), fn)
+				}
+			}
+		}
+	}
 	for _, s := range c11Strings {
 		for _, fn := range []string{"len", "upper", "lower", "capitalize", "reverse", "first", "last", "trim", "trimLeft", "trimRight", "split", "decimal"} {
 			run(refint.StrV(s), fn)
